@@ -5,7 +5,9 @@ package main
 
 import (
 	"bytes"
+	"errors"
 	"fmt"
+	"io"
 	"math/rand"
 	"os"
 	"runtime"
@@ -105,6 +107,124 @@ func safeDecode(in []byte) (p *lfs.Pointer, err error, pan any) {
 	}()
 	p, err = lfs.DecodePointer(bytes.NewReader(in))
 	return
+}
+
+// --- delivery: the decoder's verdict is a function of the byte string, not of how a reader hands it over ---
+
+var errInjected = errors.New("verif: injected read error")
+
+// hostileReader delivers data in the given chunk sizes (0 = an empty read) and, when failAt >= 0,
+// returns a non-EOF error once failAt bytes have been delivered.
+type hostileReader struct {
+	data   []byte
+	off    int
+	chunks []int
+	ci     int
+	failAt int
+}
+
+func (h *hostileReader) Read(p []byte) (int, error) {
+	if h.failAt >= 0 && h.off >= h.failAt {
+		return 0, errInjected
+	}
+	if h.off >= len(h.data) {
+		return 0, io.EOF
+	}
+	n := len(p)
+	if len(h.chunks) > 0 {
+		n = h.chunks[h.ci%len(h.chunks)]
+		h.ci++
+	}
+	if n > len(p) {
+		n = len(p)
+	}
+	if rest := len(h.data) - h.off; n > rest {
+		n = rest
+	}
+	if h.failAt >= 0 && h.off+n > h.failAt {
+		n = h.failAt - h.off
+	}
+	copy(p, h.data[h.off:h.off+n])
+	h.off += n
+	return n, nil
+}
+
+func decodeVia(rd io.Reader) (p *lfs.Pointer, err error, pan any) {
+	defer func() {
+		if x := recover(); x != nil {
+			pan = x
+		}
+	}()
+	p, err = lfs.DecodePointer(rd)
+	return
+}
+
+func samePtr(a, b *lfs.Pointer) bool {
+	if (a == nil) != (b == nil) {
+		return false
+	}
+	if a == nil {
+		return true
+	}
+	return a.Canonical == b.Canonical && ptrspec.Canonical(fromLfs(a)) == ptrspec.Canonical(fromLfs(b))
+}
+
+// checkDelivery: (1) chunked delivery gives the verdict of whole delivery; (2) when the reader fails
+// with a non-EOF error before the input was handed over completely, the decoder may reject, but it must
+// not accept anything the complete byte string would not decode to.
+func checkDelivery(r *rand.Rand, in []byte) (class string, v *verdict) {
+	wp, werr, _ := safeDecode(in)
+	var chunks []int
+	kind := ""
+	switch r.Intn(4) {
+	case 0:
+		chunks, kind = []int{1}, "bytewise"
+	case 1:
+		chunks, kind = []int{0, 1, 0, 0, 7}, "empty-reads"
+	case 2:
+		n := 1 + r.Intn(5)
+		for i := 0; i < n; i++ {
+			chunks = append(chunks, 1+r.Intn(200))
+		}
+		kind = "random-chunks"
+	default:
+		if len(in) > 1 {
+			k := 1 + r.Intn(len(in)-1)
+			chunks = []int{k, 1 << 20}
+		}
+		kind = "two-chunks"
+	}
+	if r.Intn(2) == 0 {
+		cp, cerr, pan := decodeVia(&hostileReader{data: in, chunks: chunks, failAt: -1})
+		if pan != nil {
+			return "delivery/" + kind, &verdict{"decoder-panic", fmt.Sprint(pan)}
+		}
+		if (cerr == nil) != (werr == nil) || (cerr == nil && !samePtr(cp, wp)) {
+			return "delivery/" + kind, &verdict{"chunked-delivery-differs", fmt.Sprintf("whole: err=%v; %s: err=%v", werr, kind, cerr)}
+		}
+		return "delivery/" + kind, nil
+	}
+	at := 0
+	where := "at-0"
+	if len(in) > 0 && r.Intn(3) > 0 {
+		at = r.Intn(len(in) + 1)
+		switch {
+		case at == 0:
+		case at == len(in):
+			where = "at-end"
+		default:
+			where = "inside"
+		}
+	}
+	fp, ferr, pan := decodeVia(&hostileReader{data: in, chunks: chunks, failAt: at})
+	class = "read-error/" + where + "/" + kind
+	if pan != nil {
+		return class, &verdict{"decoder-panic", fmt.Sprint(pan)}
+	}
+	if ferr == nil && (werr != nil || !samePtr(fp, wp)) {
+		return class, &verdict{"accepted-despite-read-error", fmt.Sprintf("reader failed after %d of %d bytes, decoder returned a pointer (oid %s size %d canonical %v); the complete input decodes to err=%v", at, len(in), fp.Oid, fp.Size, fp.Canonical, werr)}
+	}
+	return class, nil
 }
 
 // checkDecode: post-conditions on an arbitrary byte string.
@@ -361,7 +481,7 @@ type viol struct {
 
 func main() {
 	run := evid.New("C07", "exploration")
-	run.Rule = "seeded generator: (a) valid pointers (random oid, size edge values up to 2^63-1, 0-10 extensions with distinct ascending priorities) through Encoded()/Encode()/DecodePointer round trip; (b) 1- and 2-edit mutants of canonical pointers (30 mutation operators) and (c) unstructured/dictionary random byte strings <= 2 kB through DecodePointer; oracle = ptrspec canonical formatter + post-conditions. A class is (generator kind, mutation operator(s), accepted/rejected); distinct_nontrivial counts classes observed."
+	run.Rule = "seeded generator: (a) valid pointers (random oid, size edge values up to 2^63-1, 0-10 extensions with distinct ascending priorities) through Encoded()/Encode()/DecodePointer round trip; (b) 1- and 2-edit mutants of canonical pointers (30 mutation operators) and (c) unstructured/dictionary random byte strings <= 2 kB through DecodePointer; oracle = ptrspec canonical formatter + post-conditions; (d) delivery: the same inputs through readers that chunk (bytewise, empty reads, random, two chunks) must give the whole-buffer verdict, and through readers that fail with a non-EOF error after k bytes must never be accepted as anything the complete input does not decode to. A class is (generator kind, mutation operator(s), accepted/rejected); distinct_nontrivial counts classes observed."
 	run.Assumptions = []string{"valid pointer = size>0, extension priorities distinct and ascending, encoded length < 1024 (docs/spec.md)", "ptrspec (harness/ptrspec) is the specification of the canonical form", "DecodePointer is the decoder under test; size-checked wrappers (FromFile/FromBlob) only restrict its domain"}
 	total := run.N(1_000_000, 40_000_000)
 	workers := runtime.NumCPU()
@@ -412,6 +532,13 @@ func main() {
 					b := randBytes(r)
 					ok, v := checkDecode(b)
 					note("random", string(b), v, ok)
+					if i%40 == 2 {
+						dc, dv := checkDelivery(r, b)
+						lc[dc+"/random"]++
+						if dv != nil && len(lv) < 50 {
+							lv = append(lv, viol{*dv, dc + "/random", string(b)})
+						}
+					}
 				default:
 					p := genPointer(r)
 					if r.Intn(3) > 0 && len(p.Exts) > 2 {
@@ -427,6 +554,20 @@ func main() {
 					}
 					ok, v := checkDecode([]byte(m))
 					note(class, m, v, ok)
+					if i%4 == 3 {
+						in := []byte(m)
+						if r.Intn(4) == 0 {
+							in = []byte(s)
+						}
+						dc, dv := checkDelivery(r, in)
+						lc[dc]++
+						if _, has := ls[dc]; !has && len(in) < 400 {
+							ls[dc] = string(in)
+						}
+						if dv != nil && len(lv) < 50 {
+							lv = append(lv, viol{*dv, dc, string(in)})
+						}
+					}
 				}
 			}
 			mu.Lock()
